@@ -96,9 +96,9 @@ Print Assumptions C10_station_perm_two_schedulers.
    continuous rates) with distinct sort keys is equivariant2 under station / constraint permutation".
    Proved part: with distinct keys the sorted order, hence the input of the allocation procedure, does
    not depend on the order in which the active sessions are presented (whatever the allocation does).
-   Missing: the allocation procedure itself (bisection / discrete search against the constraints) is
-   not modelled, so its independence of station and constraint order is only OBSERVED on the paired
-   real runs (harness/c10.py monitor). *)
+   This partial statement is kept for the record; the allocation procedure is covered by the full
+   theorem C10_sorted_equivariant further down (greedy algorithm of Model/Sorted.v, Proofs/SortedPerm.v).
+   What remains unproved: round robin and run_preprocessing (order-dependent on remaining_time ties). *)
 Theorem C10_sorted_equivariant_partial : forall key alloc t v v',
   NoDup (map key v) -> Permutation v v' -> sched_sorted key alloc t v = sched_sorted key alloc t v'.
 Proof. exact sorted_equivariant. Qed.
